@@ -1140,7 +1140,7 @@ def _manager_rows(rep, ex: Explorer, stats):
         if "preprocessing_timed_out" in cols:
             v = cols["preprocessing_timed_out"].value
             rep.check(v == Sym(("post", "preprocessing_timed_out"), "bool"), "ROWS.columns", site, "column preprocessing_timed_out", "every row reports the preprocessing flag as it is after this call's preprocessing", extracted=repr(v)[:80], required="state flag after preprocessing", function=site)
-    rep.floor("result lookups in the manager's row loop", n, 4)
+    rep.floor("result lookups in the manager's row loop", n, 1)
     stats["manager_lookups"] = n
 
 
